@@ -130,12 +130,19 @@ func ruleSummaryRendering(c *Ctx, rule string) {
 					goodB, whyB = false, "the accumulator starts from the old summary"
 				}
 			}
-			// and the accumulated value is what gets stored
+			// and the accumulated value is what gets stored (by the builder, or by the setter it hands the value to)
 			stored := false
 			an.AllInstrs(b, func(in ssa.Instruction) {
 				if bb, ff, vv, ok := fieldStore(in, a.NodeT); ok && bb == "recv" && ff == a.FSummary {
 					if strings.Contains(c.O.Of(vv).String(), "phi<"+acc.Name()+">") || vv == ssa.Value(acc) {
 						stored = true
+					}
+				}
+				if setter := summarySetterOf(a, b); setter != nil {
+					if call, isCall := calleeIs(in, setter); isCall && len(call.Args) == 2 && an.AP(call.Args[0]) == "recv" {
+						if strings.Contains(c.O.Of(call.Args[1]).String(), "phi<"+acc.Name()+">") || call.Args[1] == ssa.Value(acc) {
+							stored = true
+						}
 					}
 				}
 			})
@@ -325,6 +332,23 @@ func (c *Ctx) memoEntryField(v ssa.Value, depth int) (node, field string, ok boo
 		if n := an.CalleeName(&x.Call); (n == "slices.Clone" || n == "bytes.Clone") && len(x.Call.Args) == 1 {
 			return c.memoEntryField(x.Call.Args[0], depth+1)
 		}
+		// a module helper of one summary value: methodsOf(index) = a copy of memo[index].methods, called with the
+		// summary of a node
+		if g := an.StaticCallee(&x.Call); g != nil && an.InModule(g) && g.Signature.Recv() == nil && len(g.Params) == 1 && len(g.Blocks) > 0 && len(x.Call.Args) == 1 {
+			fld := ""
+			for _, r := range an.Returns(g) {
+				f1, ok1 := c.entryFieldOfParam(an.ReturnValue(r, 0), g.Params[0], depth+1)
+				if !ok1 || (fld != "" && fld != f1) {
+					return "", "", false
+				}
+				fld = f1
+			}
+			if fld == "" {
+				return "", "", false
+			}
+			node, okN := c.summaryOf(x.Call.Args[0], depth)
+			return node, fld, okN
+		}
 	case *ssa.Field:
 		n, isEntry := c.memoEntry(x.X, depth)
 		if !isEntry {
@@ -501,5 +525,73 @@ func isCloneCall(v ssa.Value) bool {
 	case "slices.Clone", "slices.Concat", "builtin:append":
 		return true
 	}
+	// a module helper every return of which is such a copy
+	if g := an.StaticCallee(&call.Call); g != nil && an.InModule(g) && len(g.Blocks) > 0 {
+		rets := an.Returns(g)
+		for _, r := range rets {
+			if len(r.Results) != 1 {
+				return false
+			}
+			rc, isCall := an.ReturnValue(r, 0).(*ssa.Call)
+			if !isCall {
+				return false
+			}
+			switch an.CalleeName(&rc.Call) {
+			case "slices.Clone", "slices.Concat", "builtin:append":
+			default:
+				return false
+			}
+		}
+		return len(rets) > 0
+	}
 	return false
+}
+
+// entryFieldOfParam: v is (a copy of) a field of the memo entry stored under the value of parameter p.
+func (c *Ctx) entryFieldOfParam(v ssa.Value, p *ssa.Parameter, depth int) (string, bool) {
+	a := c.A
+	memoAP := "global:" + a.TreePkg.Name() + "." + a.MemoVar.Name()
+	if depth > 5 {
+		return "", false
+	}
+	entryOfParam := func(e ssa.Value) bool {
+		switch y := e.(type) {
+		case *ssa.Lookup:
+			return an.AP(y.X) == memoAP && y.Index == ssa.Value(p)
+		case *ssa.Call:
+			h := an.StaticCallee(&y.Call)
+			if h == nil || !an.InModule(h) || len(h.Params) != 1 || len(y.Call.Args) != 1 || y.Call.Args[0] != ssa.Value(p) {
+				return false
+			}
+			for _, r := range an.Returns(h) {
+				lk, isLk := an.ReturnValue(r, 0).(*ssa.Lookup)
+				if !isLk || an.AP(lk.X) != memoAP || lk.Index != ssa.Value(h.Params[0]) {
+					return false
+				}
+			}
+			return true
+		}
+		return false
+	}
+	switch x := v.(type) {
+	case *ssa.Call:
+		if n := an.CalleeName(&x.Call); (n == "slices.Clone" || n == "bytes.Clone") && len(x.Call.Args) == 1 {
+			return c.entryFieldOfParam(x.Call.Args[0], p, depth+1)
+		}
+	case *ssa.Field:
+		if entryOfParam(x.X) {
+			return an.FieldName(x.X.Type(), x.Field), true
+		}
+	case *ssa.UnOp:
+		if fa, isFA := x.X.(*ssa.FieldAddr); isFA {
+			if al, isAl := fa.X.(*ssa.Alloc); isAl {
+				for _, r := range *al.Referrers() {
+					if st, isSt := r.(*ssa.Store); isSt && st.Addr == ssa.Value(al) && entryOfParam(st.Val) {
+						return an.FieldName(fa.X.Type(), fa.Field), true
+					}
+				}
+			}
+		}
+	}
+	return "", false
 }
